@@ -172,7 +172,8 @@ class RLock:
         with self._cache.transact(retry=True):
             value, count = self._cache.get(self._key, default=(None, 0))
             is_owned = pid_tid == value and count > 0
-            assert is_owned, 'cannot release un-acquired lock'
+            if not is_owned:  # Not `assert`: must also hold under `python -O`.
+                raise AssertionError('cannot release un-acquired lock')
             self._cache.set(
                 self._key,
                 (value, count - 1),
@@ -235,7 +236,8 @@ class BoundedSemaphore:
         """Release semaphore by incrementing value."""
         with self._cache.transact(retry=True):
             value = self._cache.get(self._key, default=self._value)
-            assert self._value > value, 'cannot release un-acquired semaphore'
+            if not self._value > value:  # Not `assert`: see RLock.release.
+                raise AssertionError('cannot release un-acquired semaphore')
             value += 1
             self._cache.set(
                 self._key,
